@@ -132,10 +132,11 @@ const (
 	aNestedLazy
 	aCount
 	aStr
+	aListVal
 	aKinds
 )
 
-var lzArgNames = []string{"trace", "effect-then-unbound-symbol", "effect-then-type-error", "free-variable", "literal", "nested-lazy-call", "global-counter", "string"}
+var lzArgNames = []string{"trace", "effect-then-unbound-symbol", "effect-then-type-error", "free-variable", "literal", "nested-lazy-call", "global-counter", "string", "list-value"}
 
 func lzArg(kind int, id int64) *nd {
 	switch kind {
@@ -153,6 +154,9 @@ func lzArg(kind int, id int64) *nd {
 		return L(A("begin"), L(A("set"), A("cnt"), L(A("+"), A("cnt"), I(1))), L(A("trace"), L(A("+"), A("cnt"), I(id))))
 	case aStr:
 		return L(A("trace"), A("\"x\""))
+	case aListVal:
+		// a value that is not self-evaluating (apply/map must hand over the value, not re-evaluate it)
+		return L(A("list"), L(A("trace"), I(id)), I(2))
 	}
 	return L(A("trace"), I(id))
 }
@@ -176,11 +180,12 @@ const (
 	rTail
 	rTailShadowName
 	rLazyWrapper
+	rClosureCaller
 	rRoutes
 )
 
 var lzRouteNames = []string{"direct", "alias", "parameter", "computed-cond", "computed-fn", "computed-aget", "apply-array", "apply-list",
-	"map-array", "map-list", "wrapper-with-locals", "recursion", "self-tail-call", "self-tail-call+nested-same-name-defn", "wrapper-with-lazy-param"}
+	"map-array", "map-list", "wrapper-with-locals", "recursion", "self-tail-call", "self-tail-call+nested-same-name-defn", "wrapper-with-lazy-param", "caller-is-a-closure-over-a"}
 
 type lzScen struct {
 	fn     lzFn
@@ -329,6 +334,11 @@ func (sc *lzScen) texts() [][]*nd {
 		a2 := append([]*nd{A("#w")}, args[1:]...)
 		t1 = append(t1, L(A("defn"), A("cw"), SQ(A("#w"), A("a")), call(A("f"), a2)))
 		c = L(A("cw"), args[0], I(7))
+	case rClosureCaller:
+		// the call site sits in a closure whose free variable lives in the scope of its maker,
+		// which has returned when the closure runs
+		t1 = append(t1, L(A("defn"), A("mkc"), SQ(A("a")), L(A("fn"), SQ(A("b")), call(A("f"), args))))
+		c = L(L(A("mkc"), I(7)), I(3))
 	case rRec, rTail, rTailShadowName:
 		c = call(A("f"), append([]*nd{I(int64(1 + len(sc.args)%2))}, args...))
 	}
@@ -394,6 +404,31 @@ func (sc *lzScen) count(g *Gen, stream string) {
 	g.Count(fmt.Sprintf("history length %d", 1+sc.later))
 }
 
+// strayAmp: does `&` occur anywhere but in a parameter vector? (`&` as a value is the Go
+// builtin address-of function, outside the modelled core language.)
+func strayAmp(n *nd, isParams bool) bool {
+	if n.kids == nil {
+		return n.atom == "&" && !isParams
+	}
+	for i, k := range n.kids {
+		params := false
+		if !n.sq && len(n.kids) > 0 && n.kids[0].leaf() {
+			h := n.kids[0].atom
+			params = k.sq && ((h == "fn" && i == 1) || (h == "defn" && i == 2))
+		}
+		if k.kids == nil {
+			if k.atom == "&" && !(isParams && n.sq) {
+				return true
+			}
+			continue
+		}
+		if strayAmp(k, params) {
+			return true
+		}
+	}
+	return false
+}
+
 func (sc *lzScen) emit(g *Gen, stream string, mutate bool) {
 	ts := sc.texts()
 	if mutate {
@@ -403,11 +438,28 @@ func (sc *lzScen) emit(g *Gen, stream string, mutate bool) {
 		if len(ts) > 1 && g.Rng.Intn(4) == 0 {
 			which = 1 + g.Rng.Intn(len(ts)-1)
 		}
-		if which == 0 {
-			g.Count("mal " + e.mutate(ts[0][len(lzHelpers):]))
-		} else {
-			g.Count("mal " + e.mutate(ts[which]))
+		kind := "none"
+		for tries := 0; tries < 20 && kind == "none"; tries++ {
+			if which == 0 {
+				kind = e.mutate(ts[0][len(lzHelpers):])
+			} else {
+				kind = e.mutate(ts[which])
+			}
 		}
+		for _, t := range ts {
+			for _, f := range t {
+				if strayAmp(f, false) {
+					g.Count("mal dropped (stray &)")
+					return
+				}
+				if f.leaf() && (f.atom == "+" || f.atom == "-") {
+					// a lone sign at the end of a text makes the reader ask for more input: C13's known finding
+					g.Count("mal dropped (lone sign at top level)")
+					return
+				}
+			}
+		}
+		g.Count("mal " + kind)
 	}
 	var texts []string
 	for _, t := range ts {
@@ -459,7 +511,7 @@ func lzRandom(g *Gen, typed bool) *lzScen {
 	}
 	for i := 0; i < nargs; i++ {
 		k := r.Intn(aKinds)
-		if typed && (k == aStr || k == aNestedLazy) {
+		if typed && (k == aStr || k == aNestedLazy || k == aListVal) {
 			k = aTrace
 		}
 		if r.Intn(3) == 0 {
